@@ -381,23 +381,34 @@ pub fn k_vrank<V: Vec1View<Option<i32>>, const N: usize>(v: &V) {
     let o: LF<N> = v.vrank(kani::any(), kani::any());
     kernel_verdict!(o, "vrank: output length == N", "vrank: every output slot written");
 }
-/// vpartition / varg_partition: k in 0..=N+1; the iterator is consumed by plain iteration (its length contract is
-/// C09 / C12 business), and every index yielded by varg_partition is -1 or < N.
-pub fn k_partition<V: Vec1View<Option<i32>>, const N: usize>(v: &V) {
-    let k: usize = kani::any();
-    kani::assume(k <= N + 1);
-    let (sort, rev): (bool, bool) = (kani::any(), kani::any());
-    let mut cnt = 0usize;
-    for _e in v.vpartition(k, sort, rev) {
-        cnt += 1;
+/// vpartition / varg_partition with *concrete* (k, sort, rev) per call: a symbolic choice makes the dynamic type behind
+/// the returned `Box<dyn TrustedLen>` symbolic and every `next()` expands into all pipelines (measured in C12:
+/// 150-400 s instead of 25 s). At most k+2 reads; the box is not dropped (virtual drop over every candidate).
+/// Every index yielded by varg_partition must be -1 or < N; the count contract is C09 / C12 business.
+pub fn k_argpartition<V: Vec1View<Option<i32>>, const N: usize>(v: &V, k: usize, sort: bool, rev: bool) {
+    let mut it = v.varg_partition(k, sort, rev);
+    let mut c = 0;
+    while c < k + 2 {
+        match it.next() {
+            Some(i) => assert!(i == -1 || (i >= 0 && (i as usize) < N), "varg_partition yields -1 or an index below len"),
+            None => break,
+        }
+        c += 1;
     }
-    assert!(cnt <= k + 1, "vpartition yields at most k+1 entries");
-    let mut cnt = 0usize;
-    for i in v.varg_partition(k, sort, rev) {
-        assert!(i == -1 || (i >= 0 && (i as usize) < N), "varg_partition yields -1 or an index below len");
-        cnt += 1;
+    assert!(c <= k + 1, "varg_partition yields at most k+1 entries");
+    std::mem::forget(it);
+}
+pub fn k_vpartition<V: Vec1View<Option<i32>>, const N: usize>(v: &V, k: usize, sort: bool, rev: bool) {
+    let mut it = v.vpartition(k, sort, rev);
+    let mut c = 0;
+    while c < k + 2 {
+        if it.next().is_none() {
+            break;
+        }
+        c += 1;
     }
-    assert!(cnt <= k + 1, "varg_partition yields at most k+1 entries");
+    assert!(c <= k + 1, "vpartition yields at most k+1 entries");
+    std::mem::forget(it);
 }
 pub fn k_quantile<V: Vec1View<Option<i32>>, const N: usize>(v: &V) {
     let qi: u8 = kani::any();
@@ -443,18 +454,25 @@ pub fn f64_data<const N: usize>() -> [f64; N] {
     x
 }
 
+/// f64 data with *fixed* distinct values and a symbolic NaN mask. The regression kernels never let a value
+/// influence an index (indices come from the driver's start/end; data only gates on nullness through
+/// `n >= min_periods`), and symbolic f64 values make CBMC build and solve full-width float dividers / sqrt.
+pub fn f64_fixed<const N: usize>(mul: usize) -> [f64; N] {
+    let mut x = [0.0; N];
+    let mut i = 0;
+    while i < N {
+        x[i] = if kani::any() { f64::NAN } else { (i * mul + 1) as f64 };
+        i += 1;
+    }
+    x
+}
+
 pub fn cmp_all<V: Vec1View<Option<i32>>, const N: usize>(v: &V, wlo: usize) {
     let (w, mp) = (any_window::<N>(wlo), any_mp::<N>());
     k_vmin::<V, N>(v, w, mp);
     k_vmax::<V, N>(v, w, mp);
     k_vargmin::<V, N>(v, w, mp);
     k_vargmax::<V, N>(v, w, mp);
-}
-
-pub fn map_all<V: Vec1View<Option<i32>>, const N: usize>(v: &V) {
-    k_vrank::<V, N>(v);
-    k_partition::<V, N>(v);
-    k_quantile::<V, N>(v);
 }
 
 pub fn num_all<V: Vec1View<f64>, V2: Vec1View<f64>, const N: usize>(a: &V, b: &V2, wlo: usize) {
